@@ -83,6 +83,12 @@ pub fn exotic_states(rng: &mut Rng) -> Vec<Screen> {
         (6, 2, Box::new(|s| { s.set_title("t\u{e9}"); s.set_icon_name("i"); s.draw("x"); s.display(); })),
         (7, 3, Box::new(|s| { s.draw("abc"); s.linefeed(); s.draw("\u{4e2d}\u{4e2d}"); s.display(); s.cursor_position(Some(2), Some(5)); s.delete_characters(Some(1)); })),
         (132, 2, Box::new(|s| { s.cursor_to_column(Some(132)); s.draw("zz"); })),
+        (6, 4, Box::new(|s| { s.draw("r0"); s.cursor_position(Some(2), Some(1)); s.draw("r1"); s.cursor_position(Some(4), Some(1)); s.index(); s.cursor_position(Some(1), Some(1)); })),
+        (6, 4, Box::new(|s| { s.cursor_position(Some(2), Some(1)); s.draw("mid"); s.cursor_position(Some(1), Some(1)); s.reverse_index(); s.cursor_position(Some(3), Some(2)); })),
+        (6, 5, Box::new(|s| { s.set_margins(Some(2), Some(4)); s.cursor_position(Some(3), Some(1)); s.draw("in"); s.cursor_position(Some(4), Some(1)); s.linefeed(); s.cursor_position(Some(2), Some(1)); })),
+        (5, 3, Box::new(|s| { s.draw("ab"); s.cursor_position(Some(2), Some(1)); s.draw("\u{200b}"); s.cursor_position(Some(1), Some(1)); })),
+        (5, 3, Box::new(|s| { s.draw("abcde"); s.delete_characters(Some(1)); s.cursor_position(Some(2), Some(1)); s.draw("x"); s.cursor_position(Some(1), Some(1)); })),
+        (5, 3, Box::new(|s| { s.draw("top"); s.display(); s.cursor_position(Some(1), Some(1)); })),
         (9, 3, Box::new(|s| { s.cursor_position(Some(3), Some(9)); s.draw("x"); s.reset_mode(&[25], true); })),
         (3, 3, Box::new(|s| { s.alignment_display(); s.cursor_position(Some(2), Some(2)); s.erase_characters(Some(1)); s.set_margins(Some(1), Some(2)); })),
     ];
@@ -166,9 +172,87 @@ fn prop_events(prop: &str, em: &mut Em, rng: &mut Rng, thorough: bool) {
         t });
 }
 
+/// Walks in which the property's own operations alternate with operations that change the context they run in (modes incl.
+/// DECSCNM / DECCOLM / DECOM / IRM / DECAWM, RIS, resize, margins, save / restore, SGR, charsets, tab stops, display()):
+/// every step is probed from the state the IMPLEMENTATION reached, so anything remembered from an earlier step that should
+/// have been invalidated by a later one (a cache, a flag, a stale copy) shows as a step whose result is not the closed form
+/// of its observable pre-state.
+fn walk_op_of(prop: &str, o: &Op) -> bool {
+    if op_of(prop, o) { return true; }
+    match prop {
+        // modes govern later drawing / newline / insertion / erasing: those later operations belong to the property too
+        "C12" => matches!(o, Op::Draw(_) | Op::Linefeed | Op::Ich(_) | Op::Dch(_) | Op::Ed(_) | Op::El(_) | Op::Align | Op::Cup(_, _) | Op::Tab),
+        "C08" => matches!(o, Op::Draw(_) | Op::Ed(_) | Op::El(_) | Op::Ech(_)),
+        "C14" => matches!(o, Op::Cup(_, _) | Op::Draw(_)),
+        "C15" => matches!(o, Op::Tab | Op::Draw(_) | Op::Cup(_, _) | Op::Ich(_) | Op::Sgr(_) | Op::Linefeed),
+        "C16" => matches!(o, Op::Draw(_) | Op::Dch(_) | Op::Ich(_) | Op::Cup(_, _)),
+        "C18" => matches!(o, Op::Cha(_) | Op::Cup(_, _)),
+        _ => false,
+    }
+}
+fn context_walks(prop: &str, em: &mut Em, rng: &mut Rng, thorough: bool) {
+    if !matches!(prop, "C04" | "C05" | "C06" | "C07" | "C08" | "C12" | "C13" | "C14" | "C15" | "C16" | "C17" | "C18" | "C20" | "C09" | "C01") { return; }
+    let n = if thorough { 3000 } else { 330 };
+    let exo = exotic_states(rng);
+    let all = matches!(prop, "C09" | "C17" | "C01");
+    for k in 0..n {
+        let start = if k % 3 == 0 { fork(rng.pick(&exo)) } else { let (c, l) = *rng.pick(&[(4u32, 3u32), (6, 4), (10, 3), (3, 2), (12, 5), (80, 4)]); Screen::new(c, l) };
+        let mut used: Vec<Op> = Vec::new();
+        // only the property's own (and property-governed) operations are probed; the context operations are just applied, so that a
+        // defect in one of THEM cannot make this property's check fire
+        walk_if(em, rng, &start, 14, &|o| all || walk_op_of(prop, o), &mut |r, cur| {
+            // something memoised on its arguments only shows when the SAME operation comes back after the context changed
+            if !used.is_empty() && r.chance(1, 5) { return r.pick(&used).clone(); }
+            let o = if r.chance(1, 2) {
+                let mut got = None; for _ in 0..600 { let o = gen_op(r, cur); if all || walk_op_of(prop, &o) { got = Some(o); break; } } got.unwrap_or(Op::Bell)
+            } else { match r.below(40) {
+                0..=5 => Op::Sm(vec![5], true), 6..=10 => Op::Rm(vec![5], true), 11..=14 => Op::Reset,
+                15..=18 => Op::Resize(Some(1 + r.below(cur.lines as u64 + 2) as u32), Some(1 + r.below(cur.columns as u64 + 6) as u32)),
+                19 | 20 => Op::Sm(vec![3], true), 21 => Op::Rm(vec![3], true), 22 => Op::Sm(vec![*r.pick(&[6u32, 7, 4, 25, 20])], true), 23 => Op::Rm(vec![*r.pick(&[6u32, 7, 4, 25, 20])], true),
+                24 | 25 => Op::Margins(Some(1 + r.below(cur.lines as u64) as u32), Some(1 + r.below(cur.lines as u64) as u32)), 26 => Op::Margins(None, None), 27 => Op::Save, 28 => Op::Restore,
+                29 => Op::Sgr(gen_sgr(r)), 30 => Op::DefCharset(r.pick(&["0", "B", "U", "V"]).to_string(), r.pick(&["(", ")"]).to_string()), 31 => if r.chance(1, 2) { Op::ShiftOut } else { Op::ShiftIn },
+                32 => Op::SetTab, 33 => Op::Tab, 34 => Op::Display, 35 | 36 => Op::Cup(arg(r, cur.lines), arg(r, cur.columns)), 37 | 38 => Op::Draw(gen_text(r)), _ => Op::Sm(vec![4], false),
+            } };
+            if walk_op_of(prop, &o) && used.len() < 6 { used.push(o.clone()); }
+            o
+        });
+    }
+}
+
+/// "X, change the context, X again": anything memoised on the arguments of X (or derived from state that the context change
+/// should have invalidated) shows on the second X. A short property-heavy prefix sets the scene.
+fn memo_triples(prop: &str, em: &mut Em, rng: &mut Rng, thorough: bool) {
+    if !matches!(prop, "C04" | "C05" | "C06" | "C07" | "C08" | "C12" | "C13" | "C14" | "C15" | "C16" | "C18" | "C20") { return; }
+    let n = if thorough { 12000 } else { 2500 };
+    let exo = exotic_states(rng);
+    let ctx = |r: &mut Rng, cur: &Screen| -> Op { match r.below(20) {
+        0..=3 => Op::Sm(vec![5], true), 4..=6 => Op::Rm(vec![5], true), 7..=10 => Op::Reset,
+        11..=13 => Op::Resize(Some(1 + r.below(cur.lines as u64 + 3) as u32), Some(1 + r.below(cur.columns as u64 + 30) as u32)),
+        14 => Op::Sm(vec![3], true), 15 => Op::Rm(vec![3], true), 16 => Op::Restore, 17 => Op::Margins(Some(1 + r.below(cur.lines as u64) as u32), Some(1 + r.below(cur.lines as u64) as u32)),
+        18 => Op::Sm(vec![*r.pick(&[6u32, 7, 4])], true), _ => Op::Rm(vec![*r.pick(&[6u32, 7, 4])], true) } };
+    for k in 0..n {
+        let mut cur = if k % 4 == 0 { fork(rng.pick(&exo)) } else { let (c, l) = *rng.pick(&[(4u32, 3u32), (6, 4), (10, 3), (24, 2), (12, 5), (80, 3)]); Screen::new(c, l) };
+        let pick_x = |r: &mut Rng, cur: &Screen| -> Op { let core = r.chance(2, 3); for _ in 0..900 { let o = gen_op(r, cur); if (core && op_of(prop, &o)) || (!core && walk_op_of(prop, &o)) { return o; } } Op::Bell };
+        let mut seq: Vec<(Op, bool)> = Vec::new();
+        if rng.chance(1, 2) { let o = ctx(rng, &cur); seq.push((o, false)); }
+        for _ in 0..rng.below(4) { let o = if rng.chance(1, 4) { Op::Save } else { pick_x(rng, &cur) }; seq.push((o, true)); }
+        let x = pick_x(rng, &cur);
+        seq.push((x.clone(), true)); seq.push((ctx(rng, &cur), false)); if rng.chance(1, 3) { seq.push((ctx(rng, &cur), false)); } seq.push((x.clone(), true));
+        if rng.chance(1, 3) { seq.push((ctx(rng, &cur), false)); seq.push((x, true)); }
+        for (o, probe) in seq.iter() {
+            // the context operation is drawn for the state at the time, but geometry-dependent arguments are only suggestions: apply as is
+            if *probe && walk_op_of(prop, o) { em.probe(&cur, o); }
+            let oc = o.clone(); if safe(|| oc.apply(&mut cur)).is_none() { em.bump("walk_panics"); break; }
+            if cur.columns > 200 || cur.lines > 60 { break; }
+        }
+    }
+}
+
 /// every plan ends with its own operations probed from the exotic states
 fn universal(prop: &str, em: &mut Em, rng: &mut Rng, thorough: bool) {
+    if std::env::var("MT_NO_WALKS").is_err() { memo_triples(prop, em, rng, thorough); }
     prop_events(prop, em, rng, thorough);
+    if std::env::var("MT_NO_WALKS").is_err() { context_walks(prop, em, rng, thorough); }
     let sts = exotic_states(rng);
     if prop == "C10" { for s in sts.iter() { em.display_probe(s); } return; }
     if !matches!(prop, "C04" | "C05" | "C06" | "C07" | "C08" | "C09" | "C12" | "C13" | "C14" | "C15" | "C16" | "C17" | "C18" | "C20" | "C01") { return; }
@@ -419,6 +503,10 @@ fn c20(em: &mut Em, rng: &mut Rng, _thorough: bool) {
 }
 
 // ------------------------------------------------------------------ generic walk: every step probed locally
+pub fn walk_if(em: &mut Em, rng: &mut Rng, s0: &Screen, n: usize, probe: &dyn Fn(&Op) -> bool, pick: &mut dyn FnMut(&mut Rng, &Screen) -> Op) {
+    let mut cur = fork(s0);
+    for _ in 0..n { let o = pick(rng, &cur); if probe(&o) { em.probe(&cur, &o); } let oc = o.clone(); if safe(|| oc.apply(&mut cur)).is_none() { em.bump("walk_panics"); break; } if cur.columns > 200 || cur.lines > 60 { break; } }
+}
 pub fn walk(em: &mut Em, rng: &mut Rng, s0: &Screen, n: usize, pick: &mut dyn FnMut(&mut Rng, &Screen) -> Op) {
     let mut cur = fork(s0);
     for _ in 0..n { let o = pick(rng, &cur); em.probe(&cur, &o); let oc = o.clone(); if safe(|| oc.apply(&mut cur)).is_none() { em.bump("walk_panics"); break; } if cur.columns > 200 || cur.lines > 60 { break; } }
@@ -475,9 +563,10 @@ fn histories(em: &mut Em, rng: &mut Rng, n: usize, geos: &[(u32, u32)]) {
 }
 
 // ------------------------------------------------------------------ C10 display
-fn c10(em: &mut Em, rng: &mut Rng, thorough: bool) {
-    // wide characters whose placeholder is missing, overwritten, deleted, shifted away or never existed (last column), on
-    // never-written and on written rows, also after the row became wider or narrower
+/// wide characters whose placeholder is missing, overwritten, deleted, shifted away or never existed (last column), on
+/// never-written and on written rows, also after the row became wider or narrower
+pub fn wide_edge_states(rng: &mut Rng) -> Vec<Screen> {
+    let mut out = Vec::new();
     for &(c, l) in [(2u32, 1u32), (3, 1), (4, 2), (6, 2)].iter() { for x in 0..c { for edit in 0..11u32 { for fillk in [0u8, 1] { for wide in ["\u{4e2d}", "\u{30b3}\u{30f3}"] {
         let mut sp = base_spec(c, l); sp.fill = fillk;
         let mut s = match build(&sp, rng) { Some(s) => s, None => continue };
@@ -497,8 +586,32 @@ fn c10(em: &mut Em, rng: &mut Rng, thorough: bool) {
                 _ => { s.cursor_position(Some(1), Some(1)); s.insert_characters(Some(1)); s.resize(None, Some(c + 3)); }
             }
             s });
-        if let Some(s) = r { em.display_probe(&s); } else { em.bump("builder_panics"); }
+        if let Some(s) = r { out.push(s); }
     } } } } }
+    out
+}
+fn c10(em: &mut Em, rng: &mut Rng, thorough: bool) {
+    for s in wide_edge_states(rng).iter() { em.display_probe(s); }
+    // purity, systematically: display() materialises every absent row and cell, so every operation that reads or moves cells is
+    // run from sparse states with and without a display() first (and in between) — the outcomes must be identical
+    { let mut sts = exotic_states(rng);
+      for (c, l) in [(6u32, 3u32), (4, 2), (5, 4)] { let t = Screen::new(c, l); sts.push(fork(&t));
+          let r = safe(move || { let mut t = Screen::new(c, l); t.cursor_position(Some(2), Some(3)); t.draw("xy"); t.cursor_position(Some(1), Some(1)); t }); if let Some(t) = r { sts.push(t); } }
+      let script: Vec<Vec<Op>> = vec![
+          vec![Op::Cup(Some(1), Some(4)), Op::Draw("\u{301}".into())], vec![Op::Cup(Some(2), Some(1)), Op::Draw("\u{308}".into())], vec![Op::Cup(Some(2), Some(2)), Op::Draw("e\u{301}".into())],
+          vec![Op::Cup(Some(1), Some(2)), Op::Ich(Some(1))], vec![Op::Cup(Some(1), Some(1)), Op::Dch(Some(2))], vec![Op::Cup(Some(1), Some(1)), Op::Il(Some(1))], vec![Op::Cup(Some(1), Some(1)), Op::Dl(Some(1))],
+          vec![Op::Ech(Some(2))], vec![Op::El(Some(0))], vec![Op::Ed(Some(1))], vec![Op::Cup(Some(9999), Some(1)), Op::Index], vec![Op::Cup(Some(1), Some(1)), Op::RevIndex], vec![Op::Align],
+          vec![Op::Resize(None, Some(3))], vec![Op::Resize(Some(2), Some(9))], vec![Op::Sm(vec![5], true)], vec![Op::Rm(vec![5], true)], vec![Op::Sm(vec![4], false), Op::Draw("ins".into())],
+          vec![Op::Draw("\u{4e2d}".into()), Op::CR, Op::Draw("a".into())], vec![Op::Tab, Op::Draw("t".into())], vec![Op::Cha(Some(9999)), Op::Draw("wrap".into())], vec![Op::Save, Op::Cup(Some(2), Some(2)), Op::Restore, Op::Draw("\u{301}".into())] ];
+      for st in sts.iter() { for sc in script.iter() { for mask in [1u32, 2, 3] {
+          if !em.next_id() { continue; }
+          em.arm(format!("{}x{} ops {:?} with display() interposed (mask {})", st.columns, st.lines, sc, mask));
+          let (mut a, mut b) = (fork(st), fork(st)); let (s1, s2) = (sc.clone(), sc.clone());
+          let ra = safe(move || { for o in s1.iter() { o.apply(&mut a); } snapshot(&a) });
+          let rb = safe(move || { if mask & 1 != 0 { b.display(); } for (i, o) in s2.iter().enumerate() { if i > 0 && mask & 2 != 0 { b.display(); } o.apply(&mut b); } snapshot(&b) });
+          em.bump("purity_pairs");
+          match (ra, rb) { (Some(x), Some(y)) => if x != y { em.fail("C10", format!("display() changed the outcome: {}x{} state (cursor ({},{})) ops={:?} display mask={}", st.columns, st.lines, st.cursor.x, st.cursor.y, sc, mask)); },
+              (None, None) => {}, _ => em.fail("C10", format!("display() changed whether {:?} panics", sc)) } } } } }
     let geos: Vec<(u32, u32)> = SMALL.iter().chain(MED.iter()).cloned().collect();
     let n = if thorough { 5000 } else { 500 };
     for _ in 0..n {
@@ -546,6 +659,26 @@ fn c12(em: &mut Em, rng: &mut Rng, thorough: bool) {
             let (m, p) = gen_modes(rng); em.probe(s, &Op::Rm(m.clone(), p)); em.probe(s, &Op::Sm(m, p));
         }
     }
+    // mode x governed operation, systematically: after setting / resetting each supported mode (private spelling and its ANSI
+    // alias), every kind of operation that the modes govern is probed from sparse, written and region states
+    { let starts: Vec<Screen> = { let mut v = Vec::new();
+          for (c, l, f) in [(6u32, 3u32, 0u8), (6, 3, 1), (4, 4, 2), (5, 2, 0)] { let mut sp = base_spec(c, l); sp.fill = f; if let Some(s) = build(&sp, rng) { v.push(s); } }
+          if let Some(mut s) = build(&base_spec(6, 4), rng) { if safe(|| { s.set_margins(Some(2), Some(3)); s.draw("ab"); }).is_some() { v.push(s); } }
+          v };
+      let governed: Vec<Vec<Op>> = vec![
+          vec![Op::Draw("a".into())], vec![Op::Draw("\u{4e2d}".into())], vec![Op::Cup(Some(1), Some(4)), Op::Draw("\u{301}".into())], vec![Op::Cup(Some(2), Some(1)), Op::Draw("\u{308}".into())],
+          vec![Op::Cha(Some(9999)), Op::Draw("xy".into()), Op::Draw("z".into())], vec![Op::Cup(Some(9999), Some(1)), Op::Linefeed], vec![Op::Linefeed], vec![Op::Ich(Some(2))], vec![Op::Dch(Some(1))],
+          vec![Op::Ed(Some(0))], vec![Op::El(Some(1))], vec![Op::Ech(Some(2))], vec![Op::Align], vec![Op::Cup(Some(2), Some(2))], vec![Op::Vpa(Some(2))], vec![Op::Tab], vec![Op::Index], vec![Op::Il(Some(1))], vec![Op::Sgr(vec![0, 1])], vec![Op::Save, Op::Restore] ];
+      for st in starts.iter() { for (m, alias) in [(5u32, 160u32), (4, 4), (7, 224), (20, 20), (6, 192), (25, 800), (3, 96)] { for on in [true, false] { for spelled_private in [true, false] {
+          if (m == 4 || m == 20) && spelled_private { continue; }
+          for g in governed.iter() { if !thorough && !rng.chance(1, 3) { continue; }
+              let mut cur = fork(st);
+              let mo = if spelled_private { if on { Op::Sm(vec![m], true) } else { Op::Rm(vec![m], true) } } else { if on { Op::Sm(vec![alias], false) } else { Op::Rm(vec![alias], false) } };
+              // the opposite state first, so that the mode operation under test really switches
+              let pre = if spelled_private { if on { Op::Rm(vec![m], true) } else { Op::Sm(vec![m], true) } } else { if on { Op::Rm(vec![alias], false) } else { Op::Sm(vec![alias], false) } };
+              if m != 3 && safe(|| pre.apply(&mut cur)).is_none() { continue; }
+              em.probe(&cur, &mo); if safe(|| mo.apply(&mut cur)).is_none() { continue; }
+              for o in g.iter() { em.probe(&cur, o); let oc = o.clone(); if safe(|| oc.apply(&mut cur)).is_none() { break; } } } } } } } }
     // the `h`/`l` finals and their private flag as delivered to the listener, also right after sequences that end
     // without a dispatch (CSI ... $ x, CSI aborted by CAN/SUB) or after arbitrary other tokens
     events(em, rng, if thorough { 4000 } else { 500 }, &mut |r| {
@@ -882,6 +1015,15 @@ fn c02(em: &mut Em, rng: &mut Rng, thorough: bool) {
 fn c01(em: &mut Em, rng: &mut Rng, thorough: bool) {
     let geos: Vec<(u32, u32)> = SMALL.iter().chain(MED.iter()).chain(BIG.iter()).cloned().collect();
     let n = if thorough { 20000 } else { 2500 };
+    // display() (twice) and further drawing from every wide-character edge state and every exotic state, each a watched case
+    { let mut sts = wide_edge_states(rng); sts.extend(exotic_states(rng));
+      for st in sts.iter() { if !em.next_id() { continue; }
+        em.arm(format!("display() on {}x{} state cursor=({},{}) rows={:?}", st.columns, st.lines, st.cursor.x, st.cursor.y, snapshot(st).chars().take(200).collect::<String>()));
+        let mut f = fork(st);
+        let r = safe(move || { let a = f.display().len(); f.draw("\u{4e2d}x"); f.cariage_return(); f.draw("y"); let b = f.display().len(); (a, b, f.lines as usize) });
+        em.bump("api_cases");
+        match r { None => em.fail("C01", format!("panic in display()/draw on a {}x{} state with wide characters (cursor ({},{}))", st.columns, st.lines, st.cursor.x, st.cursor.y)),
+            Some((a, b, ll)) => if a != b || b != ll { em.fail("C09", format!("display() returned {} then {} rows on a {}-line screen", a, b, ll)); } } } }
     for k in 0..n {
         if !em.next_id() { continue; }
         let (c, l) = *rng.pick(&geos);
@@ -895,12 +1037,20 @@ fn c01(em: &mut Em, rng: &mut Rng, thorough: bool) {
         let utf8 = rng.chance(3, 4);
         let mut chunks: Vec<Vec<u8>> = Vec::new(); let mut p = 0; while p < bytes.len() { let k2 = 1 + rng.below(9) as usize; let e = (p + k2).min(bytes.len()); chunks.push(bytes[p..e].to_vec()); p = e; }
         let tail = gen_stream(rng, 3).into_bytes();
-        let ch2 = chunks.clone(); let tail2 = tail.clone();
-        em.arm(format!("{}x{} utf8={} byte chunks {:02x?} then display() then {:02x?}", c, l, utf8, chunks, tail));
+        // every third case: a multi-byte character is cut by a chunk boundary and ByteParser::select_other_charset is called between
+        // chunks ("@" 8-bit, "G"/"8" UTF-8, others ignored), also repeatedly and right at the cut
+        let mut sels: Vec<(usize, &'static str)> = Vec::new();
+        if k % 3 == 0 { let mb: &[u8] = *rng.pick(&[&[0xe3u8, 0x81, 0x82][..], &[0xc3, 0xa9][..], &[0xf0, 0x9f, 0x98, 0x80][..], &[0xe3, 0x81][..]]);
+            let cut = 1 + rng.below(mb.len() as u64 - 1) as usize; chunks.push(mb[..cut].to_vec()); let at = chunks.len(); chunks.push(mb[cut..].to_vec()); chunks.push(b"ok\x1b[2J".to_vec());
+            for _ in 0..(1 + rng.below(4)) { sels.push((if rng.chance(1, 2) { at } else { rng.below(chunks.len() as u64 + 1) as usize }, *rng.pick(&["@", "G", "8", "@", "G", "x"]))); } }
+        let ch2 = chunks.clone(); let tail2 = tail.clone(); let sels2 = sels.clone();
+        em.arm(format!("{}x{} utf8={} byte chunks {:02x?} (select_other_charset before chunk: {:?}) then display() then {:02x?}", c, l, utf8, chunks, sels, tail));
         let r = safe(move || { let m = Arc::new(Mutex::new(Screen::new(c, l))); let mut bp = ByteParser::new(m.clone()); if !utf8 { bp.select_other_charset("@"); }
-            for x in ch2.iter() { bp.feed(x); } let d = m.lock().unwrap().display(); let n1 = d.len(); bp.feed(&tail2); let d2 = m.lock().unwrap().display(); let ll = m.lock().unwrap().lines; drop(bp); (n1, d2.len(), ll) });
+            for (i, x) in ch2.iter().enumerate() { for (j, code) in sels2.iter() { if *j == i { bp.select_other_charset(code); } } bp.feed(x); }
+            for (j, code) in sels2.iter() { if *j >= ch2.len() { bp.select_other_charset(code); } }
+            let d = m.lock().unwrap().display(); let n1 = d.len(); bp.feed(&tail2); let d2 = m.lock().unwrap().display(); let ll = m.lock().unwrap().lines; drop(bp); (n1, d2.len(), ll) });
         em.bump("byte_cases");
-        match r { None => em.fail("C01", format!("panic: {}x{} utf8={} chunks {:02x?} then display() then {:02x?}", c, l, utf8, chunks, tail)),
+        match r { None => em.fail("C01", format!("panic: {}x{} utf8={} chunks {:02x?} select_other_charset before chunk {:?} then display() then {:02x?}", c, l, utf8, chunks, sels, tail)),
             Some((n1, n2, ll)) => { let _ = n1; if n2 != ll as usize { em.fail("C09", format!("display() returned {} rows on a {}-line screen", n2, ll)); } } }
         // (b) direct API sequences with display() interleaved
         if !em.next_id() { continue; }
